@@ -25,7 +25,11 @@ OBLIGATIONS = ['PGA.Scheme.' + t for t in [
 RULE = ('cases = (scheme, molecule, spelling): every molecule of the fixed pools and grown molecules, each written in several '
         'ways (random atom order incl. branch order and ring-closure choices, explicit vs implicit H, Kekule vs aromatic, '
         'molecule object vs SMILES; all atom permutations for <= 5 heavy atoms in the thorough tier), for the nine shipped '
-        'schemes. distinct = distinct (scheme, spelling); non-trivial = spelling differs from the canonical one.')
+        'schemes. distinct = distinct (scheme, spelling); non-trivial = spelling differs from the canonical one. '
+        'Pipeline step (C03 ∘ C01, C19 ∘ C14/C01): for a bounded number of (molecule, spelling) pairs per library with equal descriptors the whole call '
+        'chain lib.Estimate(lib.GetDescriptors(x), "thermochem") is compared at three temperatures; the mapping is re-keyed (Group objects parsed from '
+        'other spellings, library key objects, reversed order, zero-count paddings); every entry of every library file is looked up under other '
+        'spellings; each library is reloaded from files whose group names are respelled.')
 ASSUMPTIONS = ['A-graph: isomorphic inputs give isomorphic RDKit graphs with the same ring set (ring ORDER may differ: see F3)']
 TRUSTED = ['RDKit writes/reads the alternative spellings (RenumberAtoms, MolToSmiles canonical=False)']
 
@@ -281,7 +285,11 @@ LEVEL_TEXT = ('Lean 4 theorems: for every renumbering of the atoms of a graph (a
               '(C03_embeds_relabel), the perception commutes with the renumbering (C03_aromatize_relabel), the decomposition above the matcher depends on '
               'match sets and neighbour multisets only (C03_descriptors_relabel, C19). The perception is invariant under rotation/reflection of ring atom lists '
               'and under the order of the ring list when no two eligible rings share a bond (C03_aromatize_order_partial). The implementation is compared with '
-              'itself on equivalent spellings (relational oracle), with the end-to-end model on every spelling\'s own graph, and its perception with the model directly.')
+              'itself on equivalent spellings (relational oracle), with the end-to-end model on every spelling\'s own graph, and its perception with the model directly. '
+              'Composition (Props/Pipeline.lean): the composed model pipeline = estimate ∘ decompose has the same outcome — failure stage, missing descriptors, range, '
+              'Cp/R, H/RT, S/R at every temperature, x\'Mx, and H, G, S, Cp in every unit — on a renumbered graph (PIPE_relabel_invariant, PIPE_relabel_quadratic, '
+              'PIPE_dimensional_relabel) and under another presentation of bond-disjoint eligible rings (PIPE_ring_presentation_invariant_partial); the spelling of a group '
+              'name in a library file does not matter (PIPE_spelling_independent, PIPE_spelling_lookup), the spelling of a string key does (PIPE_spelling_raw_string_full_fails).')
 LEVEL_NOTE = ('Trusted: Lean kernel, standard axioms, RDKit for producing equivalent spellings and graphs (A-graph). Partial: invariance of the '
               'Benson aromatic perception under ring ORDER is false of the code for fused rings (F3, recorded; refuted in Lean at the 1-methylnaphthalene graph); '
               'rotation/reflection of a ring, ring order for bond-disjoint eligible rings, and renumbering are proved. Hypotheses of the end-to-end theorem: well-formed '
